@@ -706,7 +706,19 @@ func TestC15Kern(t *testing.T) {
 			np := rapid.IntRange(0, 10).Draw(t, "nPairs")
 			for j := 0; j < np; j++ {
 				k := [2]uint16{uint16(rapid.IntRange(0, n-1).Draw(t, "kl")), uint16(rapid.IntRange(0, n-1).Draw(t, "kr"))}
-				subs[i].pairs[k] = int16(rapid.OneOf(rapid.IntRange(-300, 300), rapid.SampledFrom([]int{-32768, -1, 1, 32767})).Draw(t, "kv"))
+				if i > 0 && len(subs[i-1].pairs) > 0 && rapid.Bool().Draw(t, "samePairAsBefore") {
+					// a pair an earlier subtable has a value for: a later
+					// subtable adds to it, limits it from below or replaces it
+					var keys [][2]uint16
+					for kk := range subs[i-1].pairs {
+						keys = append(keys, kk)
+					}
+					sort.Slice(keys, func(a, b int) bool {
+						return keys[a][0] < keys[b][0] || (keys[a][0] == keys[b][0] && keys[a][1] < keys[b][1])
+					})
+					k = rapid.SampledFrom(keys).Draw(t, "earlierPair")
+				}
+				subs[i].pairs[k] = int16(rapid.OneOf(rapid.IntRange(-300, 300), rapid.SampledFrom([]int{-32768, -1, 0, 0, 1, 32767})).Draw(t, "kv"))
 			}
 		}
 		// tables of real fonts exceed the 16-bit subtable length field (more
